@@ -167,7 +167,7 @@ def check(prop, tier, only=None, extra_checks=None):
             known_lines.append((k["id"], k["what"], rec["id"]))
         # explicit Cnn: labels belong to that property; safety-class failures (UB, invalid pointer, foreign
         # exception) make every property of the kernel fail, so they are reported under whichever check runs
-        mine = [f for f in rec["failures"] if f["prop"] in (prop, None, "C01")]
+        mine = [f for f in rec["failures"] if f["prop"] is None or f["prop"] == "C01" or prop in f["prop"].split("/")]
         others = [f for f in rec["failures"] if f not in mine]
         rec["other_property_failures"] = [dict(desc=f["desc"], prop=f["prop"]) for f in others]
         if mine:
